@@ -267,6 +267,21 @@ theorem given_count {t : Tol} {L : ℚ} {o : Oracle} {v res : Vals} {n : ℕ}
       subst h
       rw [runSteps_count_eq steps v v' hp hr, hn]
 
+/-! ### building a successful call -/
+
+theorem oracleCount_intro {o : Oracle} {ok : ℕ → Bool} {why : String} {n : ℕ}
+    (ho : o.count = some (n : ℤ)) (hn : 1 ≤ n) (hok : ok n = true) : oracleCount o ok why = .ok n := by
+  unfold oracleCount
+  rw [ho]
+  simp only [Int.toNat_natCast]
+  rw [if_pos ⟨by exact_mod_cast hn, hok⟩]
+  rfl
+
+theorem pow_ne_one_of_pos {x : ℚ} (hx : 0 < x) (h1 : x ≠ 1) {n : ℕ} (hn : 1 ≤ n) : x ^ n ≠ 1 := by
+  intro h
+  exact h1 ((pow_eq_one_iff_of_nonneg (le_of_lt hx) (by omega)).mp h)
+
+
 /-! ### the root-finding count -/
 
 /-- what the size-and-total pairs guarantee on the root-finding branch: with `w^(n-1) = T` (the ratio blockMesh
